@@ -31,6 +31,14 @@ def lattice(rng, edges, n):
     return z
 
 
+def close_sum(got, want, scale, rel=1e-12):
+    """Sums of weights of either sign cancel: the rounding of a sum lives on the scale of sum |w|, not of the sum."""
+    got, want, scale = np.asarray(got, dtype=float), np.asarray(want, dtype=float), np.asarray(scale, dtype=float)
+    if got.shape != want.shape:
+        return False
+    return bool(np.all(np.abs(got - want) <= rel * scale))
+
+
 class C10(Check):
     id = "C10"
     level = "exploration"
@@ -138,6 +146,7 @@ class C10(Check):
             members = bin_members(rec["z"], edges, closed)
             want_w = np.array([[ww[m & (rec["pid"] == p)].sum() for p in range(P)] for m in members])  # (nb, P)
             want_n = np.array([[int((m & (rec["pid"] == p)).sum()) for p in range(P)] for m in members])
+            abs_w = np.array([[np.abs(ww[m & (rec["pid"] == p)]).sum() for p in range(P)] for m in members])  # (nb, P) sum |w|
             on_inner = int(np.isin(rec["z"], edges[1:-1]).sum())
             on_outer = int(np.isin(rec["z"], edges[[0, -1]]).sum())
             counters["edge_valued_objects"] = on_inner + on_outer
@@ -160,7 +169,7 @@ class C10(Check):
                 counters["tree_cells"] = nb * P
                 if not np.array_equal(got_tree_n, want_n):
                     bad(f"trees:num_records-wrong:{closed}", dict(got=got_tree_n.tolist(), want=want_n.tolist()))
-                if not np.allclose(got_tree_w, want_w, rtol=1e-12, atol=0):
+                if not close_sum(got_tree_w, want_w, abs_w):
                     bad(f"trees:sum_weights-wrong:{closed}", dict(got=got_tree_w.tolist(), want=want_w.tolist()))
             except Exception as e:
                 bad(f"trees:raises-{type(e).__name__}:{case['empty']}", dict(error=str(e)[:200]))
@@ -197,7 +206,7 @@ class C10(Check):
                 cf = yaw.crosscorrelate(cfg, ref, unk, ref_rand=rnd, unk_rand=ur, max_workers=nw)[0]
                 got_meas = cf.dd.sum_weights.sum_weights1
                 counters["measurement_cells"] = nb * P
-                if not (got_meas.shape == want_w.shape and np.allclose(got_meas, want_w, rtol=1e-12, atol=0)):
+                if not close_sum(got_meas, want_w, abs_w):
                     bad(f"measurement:sum_weights-wrong:{closed}", dict(got=np.asarray(got_meas).tolist(), want=want_w.tolist()))
                 if not np.array_equal(cf.dr.sum_weights.sum_weights1, got_meas):
                     bad("measurement:dd-dr-sum_weights-differ", {})
@@ -220,7 +229,7 @@ class C10(Check):
                                       ("dr.sum_weights1", acf.dr.sum_weights.sum_weights1, want_w),
                                       ("dr.sum_weights2", acf.dr.sum_weights.sum_weights2, want_r),
                                       ("rr.sum_weights1", acf.rr.sum_weights.sum_weights1, want_r)):
-                    if not (got.shape == want.shape and np.allclose(got, want, rtol=1e-12, atol=0)):
+                    if not close_sum(got, want, np.abs(want) if want is want_r else abs_w):
                         bad(f"measurement:auto:{nm}-wrong:{closed}", dict(got=np.asarray(got).tolist(), want=want.tolist()))
                         break
             except Exception as e:
@@ -231,21 +240,21 @@ class C10(Check):
             try:
                 h = HistData.from_catalog(ref, cfg, max_workers=nw)
                 counters["hist_cells"] = nb * P
-                if not np.allclose(h.data, want_w.sum(axis=1), rtol=1e-12, atol=0):
+                if not close_sum(h.data, want_w.sum(axis=1), abs_w.sum(axis=1)):
                     inner = bool(on_inner)
                     bad(f"hist:data-wrong:{closed}:{'inner-edge-valued' if inner else 'other'}",
                         dict(got=h.data.tolist(), want=want_w.sum(axis=1).tolist(), edges=edges.tolist()))
                 got_hist = (h.data[None, :] - h.samples).T  # (nb, P) per-patch histograms
-                if P > 1 and not np.allclose(got_hist, want_w, rtol=1e-9, atol=1e-9):
-                    if np.allclose(h.data, want_w.sum(axis=1), rtol=1e-12, atol=0):
+                if P > 1 and not close_sum(got_hist, want_w, abs_w.sum(axis=1)[:, None] + 1.0, rel=1e-9):
+                    if close_sum(h.data, want_w.sum(axis=1), abs_w.sum(axis=1)):
                         bad("hist:per-patch-wrong", dict(got=got_hist.tolist(), want=want_w.tolist()))
             except Exception as e:
                 bad(f"hist:raises-{type(e).__name__}:{case['empty']}", dict(error=str(e)[:200]))
 
             # the three consumers must agree with each other
-            if got_meas is not None and not np.allclose(got_meas, got_tree_w, rtol=1e-12, atol=0, equal_nan=False):
+            if got_meas is not None and not close_sum(got_meas, got_tree_w, abs_w):
                 bad("consumers-disagree:trees-vs-measurement", {})
-            if got_hist is not None and got_meas is not None and not np.allclose(got_hist.sum(axis=1), np.asarray(got_meas).sum(axis=1), rtol=1e-9, atol=1e-9):
+            if got_hist is not None and got_meas is not None and not close_sum(got_hist.sum(axis=1), np.asarray(got_meas).sum(axis=1), abs_w.sum(axis=1) + 1.0, rel=1e-9):
                 bad(f"consumers-disagree:hist-vs-measurement:{closed}", dict(hist=got_hist.sum(axis=1).tolist(), meas=np.asarray(got_meas).sum(axis=1).tolist()))
 
         os.environ["YAW_NUM_THREADS"] = "1"
